@@ -35,7 +35,7 @@ pub proof fn lemma_cfg_small<'a>(g: Graph<'a>)
 }
 
 pub proof fn lemma_cfg_inv_add_block<'a>(st: CfgSt<'a>, subs: Map<Tid, Term<Sub>>, b: &'a Term<Blk>, f: &'a Term<Sub>)
-    requires cfg_inv(st, subs), st.nodes.len() + 1 <= usize::MAX,
+    requires cfg_inv(st, subs), st.nodes.len() + 1 <= usize::MAX, cfg_prog_block(subs, *b), cfg_prog_sub(subs, *f),
     ensures cfg_inv(cfg_add_block(st, b, f), subs), cfg_grows(st, cfg_add_block(st, b, f)),
 {
     let s2 = cfg_add_block(st, b, f);
@@ -69,7 +69,7 @@ pub proof fn lemma_cfg_inv_edge<'a>(st: CfgSt<'a>, subs: Map<Tid, Term<Sub>>, sr
 }
 
 pub proof fn lemma_cfg_inv_node<'a>(st: CfgSt<'a>, subs: Map<Tid, Term<Sub>>, w: Node<'a>)
-    requires cfg_inv(st, subs),
+    requires cfg_inv(st, subs), cfg_node_ok(subs, w),
     ensures cfg_inv(cfg_node(st, w), subs), cfg_grows(st, cfg_node(st, w)),
 {
     let s2 = cfg_node(st, w);
@@ -86,7 +86,8 @@ pub proof fn lemma_cfg_inv_node<'a>(st: CfgSt<'a>, subs: Map<Tid, Term<Sub>>, w:
 
 /// the pair looked up / created by cfg_ensure is an existing BlkStart node; the invariant is kept
 pub proof fn lemma_cfg_inv_ensure<'a>(st: CfgSt<'a>, subs: Map<Tid, Term<Sub>>, tid: Tid, f: &'a Term<Sub>)
-    requires cfg_inv(st, subs), st.nodes.len() + 1 <= usize::MAX,
+    requires cfg_inv(st, subs), st.nodes.len() + 1 <= usize::MAX, cfg_prog_sub(subs, *f),
+        !st.jt.contains_key((tid, f.tid)) ==> cfg_has_block(subs, tid),
     ensures
         cfg_inv(cfg_ensure(st, subs, tid, f).0, subs),
         cfg_grows(st, cfg_ensure(st, subs, tid, f).0),
@@ -96,17 +97,19 @@ pub proof fn lemma_cfg_inv_ensure<'a>(st: CfgSt<'a>, subs: Map<Tid, Term<Sub>>, 
     if st.jt.contains_key((tid, f.tid)) {
         assert(cfg_pair_ok(st.nodes, (tid, f.tid), st.jt[(tid, f.tid)]));
     } else {
+        broadcast use axiom_cfg_find_block;
         lemma_cfg_inv_add_block(st, subs, cfg_find_block::<'a>(subs, tid)->Some_0, f);
     }
 }
 
 pub proof fn lemma_cfg_inv_intra<'a>(st: CfgSt<'a>, subs: Map<Tid, Term<Sub>>, source: NodeIndex, tid: Tid, jump: &'a Term<Jmp>, uc: Option<&'a Term<Jmp>>)
-    requires cfg_inv(st, subs), st.nodes.len() + 1 <= usize::MAX, source.i < st.nodes.len(),
+    requires cfg_inv(st, subs), st.nodes.len() + 1 <= usize::MAX, cfg_is_end(st, source), cfg_has_block(subs, tid),
     ensures
         cfg_inv(cfg_intra(st, subs, source, tid, jump, uc), subs),
         cfg_grows(st, cfg_intra(st, subs, source, tid, jump, uc)),
 {
     let f = cfg_sub(st.nodes[source.i as int]);
+    assert(cfg_node_ok(subs, st.nodes[source.i as int]));
     lemma_cfg_inv_ensure(st, subs, tid, f);
     let (st1, t) = cfg_ensure(st, subs, tid, f);
     lemma_cfg_inv_edge(st1, subs, source, t, Edge::Jump(jump, uc));
@@ -119,7 +122,8 @@ pub proof fn lemma_cfg_grows_trans<'a>(a: CfgSt<'a>, b: CfgSt<'a>, c: CfgSt<'a>)
 }
 
 pub proof fn lemma_cfg_inv_return_site<'a>(st: CfgSt<'a>, subs: Map<Tid, Term<Sub>>, source: NodeIndex, return_: Option<Tid>)
-    requires cfg_inv(st, subs), st.nodes.len() + 1 <= usize::MAX, source.i < st.nodes.len(),
+    requires cfg_inv(st, subs), st.nodes.len() + 1 <= usize::MAX, cfg_is_end(st, source),
+        return_ is Some ==> cfg_has_block(subs, return_->Some_0),
     ensures
         cfg_inv(cfg_return_site(st, subs, source, return_).0, subs),
         cfg_grows(st, cfg_return_site(st, subs, source, return_).0),
@@ -131,13 +135,15 @@ pub proof fn lemma_cfg_inv_return_site<'a>(st: CfgSt<'a>, subs: Map<Tid, Term<Su
             rn.i < cfg_return_site(st, subs, source, return_).0.nodes.len() && cfg_return_site(st, subs, source, return_).0.nodes[rn.i as int] is BlkStart
         },
 {
+    assert(cfg_node_ok(subs, st.nodes[source.i as int]));
     if return_ is Some {
         lemma_cfg_inv_ensure(st, subs, return_->Some_0, cfg_sub(st.nodes[source.i as int]));
     }
 }
 
 pub proof fn lemma_cfg_inv_call<'a>(st: CfgSt<'a>, subs: Map<Tid, Term<Sub>>, ext: Set<Tid>, source: NodeIndex, jump: &'a Term<Jmp>, target: Tid, return_: Option<Tid>)
-    requires cfg_inv(st, subs), st.nodes.len() + 3 <= usize::MAX, source.i < st.nodes.len(), cfg_has_call(*cfg_blk(st.nodes[source.i as int])),
+    requires cfg_inv(st, subs), st.nodes.len() + 3 <= usize::MAX, cfg_is_end(st, source), cfg_has_call(*cfg_blk(st.nodes[source.i as int])),
+        return_ is Some ==> cfg_has_block(subs, return_->Some_0),
     ensures
         cfg_inv(cfg_call(st, subs, ext, source, jump, target, return_), subs),
         cfg_grows(st, cfg_call(st, subs, ext, source, jump, target, return_)),
@@ -180,8 +186,9 @@ pub proof fn lemma_cfg_inv_call<'a>(st: CfgSt<'a>, subs: Map<Tid, Term<Sub>>, ex
 
 pub proof fn lemma_cfg_inv_jump_edge<'a>(st: CfgSt<'a>, subs: Map<Tid, Term<Sub>>, ext: Set<Tid>, source: NodeIndex, jump: &'a Term<Jmp>, uc: Option<&'a Term<Jmp>>)
     requires
-        cfg_inv(st, subs), source.i < st.nodes.len(),
+        cfg_inv(st, subs), cfg_is_end(st, source),
         st.nodes.len() + 3 <= usize::MAX,
+        cfg_jump_targets_exist(subs, *cfg_blk(st.nodes[source.i as int]), *jump),
         // (the BranchInd case is a loop of add_intraprocedural_edge calls: add_indirect_jumps proves it step by step)
         !(jump.term is BranchInd),
         jump.term is Call ==> cfg_has_call(*cfg_blk(st.nodes[source.i as int])),
@@ -238,4 +245,240 @@ pub proof fn lemma_cfg_inv_call_return_step<'a>(st: CfgSt<'a>, subs: Map<Tid, Te
     lemma_cfg_inv_edge(s2, subs, rs, cr, Edge::CrReturnStub);
     let s3 = cfg_edge(s2, rs, cr, Edge::CrReturnStub);
     lemma_cfg_inv_edge(s3, subs, cr, rn, Edge::ReturnCombine(cfg_call_term(call.0)));
+}
+
+// ---- STAGE 2 ---------------------------------------------------------------------------------------------------------------
+
+/// the keys of a BTreeMap iteration list every key exactly once
+pub proof fn lemma_cfg_keys_order(s: Seq<(&Tid, &Term<Sub>)>, subs: Map<Tid, Term<Sub>>)
+    requires cgb_iter_of(s, subs),
+    ensures cfg_key_order(cfg_keys(s), subs),
+{
+    let ks = cfg_keys(s);
+    assert forall |i: int, j: int| 0 <= i < j < ks.len() implies ks[i] != ks[j] by {
+        if ks[i] == ks[j] { lemma_cgb_iter_inj(s, subs, i, j); }
+    }
+    assert forall |k: Tid| subs.contains_key(k) implies exists |i: int| 0 <= i < ks.len() && #[trigger] ks[i] == k by {
+        let i = choose |i: int| 0 <= i < s.len() && *(#[trigger] s[i]).0 == k;
+        assert(ks[i] == k);
+    }
+}
+
+pub proof fn lemma_cfg_keys_order_all(subs: Map<Tid, Term<Sub>>)
+    ensures forall |s: Seq<(&Tid, &Term<Sub>)>| #[trigger] cgb_iter_of(s, subs) ==> cfg_key_order(cfg_keys(s), subs),
+{
+    assert forall |s: Seq<(&Tid, &Term<Sub>)>| #[trigger] cgb_iter_of(s, subs) implies cfg_key_order(cfg_keys(s), subs) by {
+        lemma_cfg_keys_order(s, subs);
+    }
+}
+
+/// add_subs_to_call_targets, one more function visited
+pub proof fn lemma_cfg_ct_step<'a>(st0: CfgSt<'a>, ct: Map<Tid, (NodeIndex, NodeIndex)>, s: Seq<(&Tid, &Term<Sub>)>, subs: Map<Tid, Term<Sub>>, n: int)
+    requires
+        cgb_iter_of(s, subs), cfg_sub_tids_unique(subs), 0 <= n < s.len(),
+        cfg_ct_partial(st0, ct, s, n),
+    ensures
+        s[n].1.term.blocks@.len() > 0 ==> cfg_ct_partial(st0, ct.insert(s[n].1.tid, st0.jt[(s[n].1.term.blocks@[0].tid, s[n].1.tid)]), s, n + 1),
+        s[n].1.term.blocks@.len() == 0 ==> cfg_ct_partial(st0, ct, s, n + 1),
+{
+    let f = s[n].1;
+    assert forall |t: Tid| cfg_callable_n(s, n + 1, t) <==> cfg_callable_n(s, n, t) || (f.tid == t && f.term.blocks@.len() > 0) by {
+        if cfg_callable_n(s, n + 1, t) {
+            let j = choose |j: int| 0 <= j < n + 1 && (#[trigger] s[j]).1.tid == t && s[j].1.term.blocks@.len() > 0;
+            if j < n { assert(cfg_callable_n(s, n, t)); }
+        }
+        if cfg_callable_n(s, n, t) {
+            let j = choose |j: int| 0 <= j < n && (#[trigger] s[j]).1.tid == t && s[j].1.term.blocks@.len() > 0;
+            assert(0 <= j < n + 1);
+        }
+        if f.tid == t && f.term.blocks@.len() > 0 { assert(s[n].1.tid == t); }
+    }
+    if f.term.blocks@.len() > 0 {
+        let ct2 = ct.insert(f.tid, st0.jt[(f.term.blocks@[0].tid, f.tid)]);
+        assert forall |j: int| 0 <= j < n + 1 && (#[trigger] s[j]).1.term.blocks@.len() > 0 implies ct2[s[j].1.tid] == st0.jt[(s[j].1.term.blocks@[0].tid, s[j].1.tid)] by {
+            if j < n && s[j].1.tid == f.tid {
+                // same tid => same function (well-formed program), hence the same first block
+                assert(subs.contains_key(*s[j].0) && subs[*s[j].0] == *s[j].1);
+                assert(subs.contains_key(*s[n].0) && subs[*s[n].0] == *s[n].1);
+                assert(*s[j].1 == *s[n].1);
+            }
+        }
+    }
+}
+
+/// add_subs_to_call_targets, all functions visited
+pub proof fn lemma_cfg_ct_done<'a>(st0: CfgSt<'a>, st1: CfgSt<'a>, s: Seq<(&Tid, &Term<Sub>)>, subs: Map<Tid, Term<Sub>>)
+    requires
+        cgb_iter_of(s, subs), cfg_ct_partial(st0, st1.ct, s, s.len() as int), st1 == (CfgSt { ct: st1.ct, ..st0 }),
+    ensures
+        cfg_call_targets_post(st0, st1, subs),
+{
+    let n = s.len() as int;
+    assert forall |t: Tid| #![trigger cfg_callable(subs, t)] #![trigger cfg_callable_n(s, n, t)] cfg_callable_n(s, n, t) <==> cfg_callable(subs, t) by {
+        if cfg_callable_n(s, n, t) {
+            let j = choose |j: int| 0 <= j < n && (#[trigger] s[j]).1.tid == t && s[j].1.term.blocks@.len() > 0;
+            assert(subs.contains_key(*s[j].0) && subs[*s[j].0] == *s[j].1);
+        }
+        if cfg_callable(subs, t) {
+            let k = choose |k: Tid| #[trigger] subs.contains_key(k) && subs[k].tid == t && subs[k].term.blocks@.len() > 0;
+            let j = choose |j: int| 0 <= j < s.len() && *(#[trigger] s[j]).0 == k;
+            assert(subs[*s[j].0] == *s[j].1);
+        }
+    }
+    assert forall |k: Tid| #[trigger] subs.contains_key(k) && subs[k].term.blocks@.len() > 0 implies
+            st1.ct[subs[k].tid] == st0.jt[(subs[k].term.blocks@[0].tid, subs[k].tid)] by {
+        let j = choose |j: int| 0 <= j < s.len() && *(#[trigger] s[j]).0 == k;
+        assert(subs[*s[j].0] == *s[j].1);
+    }
+}
+
+/// the invariant after add_subs_to_call_targets
+pub proof fn lemma_cfg_inv_call_targets<'a>(st0: CfgSt<'a>, st1: CfgSt<'a>, subs: Map<Tid, Term<Sub>>)
+    requires cfg_inv(st0, subs), cfg_firsts_registered(st0, subs), cfg_call_targets_post(st0, st1, subs),
+    ensures cfg_inv(st1, subs),
+{
+    assert forall |t: Tid| #[trigger] st1.ct.contains_key(t) implies cfg_entry_ok(st1.nodes, subs, t, st1.ct[t]) by {
+        if cfg_callable(subs, t) {
+            let k = choose |k: Tid| #[trigger] subs.contains_key(k) && subs[k].tid == t && subs[k].term.blocks@.len() > 0;
+            let key = (subs[k].term.blocks@[0].tid, subs[k].tid);
+            assert(cfg_registered(st0, subs[k].term.blocks@[0], subs[k]));
+            assert(cfg_pair_ok(st0.nodes, key, st0.jt[key]));
+        } else {
+            assert(cfg_entry_ok(st0.nodes, subs, t, st0.ct[t]));
+        }
+    }
+}
+
+/// taking the last entry off the worklist keeps the invariant; the entry is an existing BlkEnd node of a program block
+pub proof fn lemma_cfg_inv_pop<'a>(st: CfgSt<'a>, subs: Map<Tid, Term<Sub>>)
+    requires cfg_inv(st, subs), st.wl.len() > 0,
+    ensures
+        cfg_inv(CfgSt { wl: st.wl.drop_last(), ..st }, subs),
+        cfg_is_end(CfgSt { wl: st.wl.drop_last(), ..st }, st.wl.last()),
+        cfg_prog_block(subs, *cfg_blk(st.nodes[st.wl.last().i as int])),
+{
+    let s2 = CfgSt { wl: st.wl.drop_last(), ..st };
+    assert(st.wl[st.wl.len() - 1] == st.wl.last());
+    assert forall |i: int| 0 <= i < s2.wl.len() implies (#[trigger] s2.wl[i]).i < s2.nodes.len() && s2.nodes[s2.wl[i].i as int] is BlkEnd by {
+        assert(s2.wl[i] == st.wl[i]);
+    }
+    assert(cfg_node_ok(subs, st.nodes[st.wl.last().i as int]));
+}
+
+pub proof fn lemma_cfg_inv_empty<'a>(st: CfgSt<'a>, subs: Map<Tid, Term<Sub>>)
+    requires st == cfg_empty::<'a>(),
+    ensures cfg_inv(st, subs),
+{
+}
+
+/// add_block keeps the registered keys and registers its own
+pub proof fn lemma_cfg_sub_blocks_keys<'a>(st: CfgSt<'a>, f: &'a Term<Sub>, n: int)
+    requires 0 <= n <= f.term.blocks@.len(),
+    ensures
+        forall |k: (Tid, Tid)| st.jt.contains_key(k) ==> #[trigger] cfg_sub_blocks_n(st, f, n).jt.contains_key(k),
+        forall |i: int| 0 <= i < n ==> cfg_sub_blocks_n(st, f, n).jt.contains_key(((#[trigger] f.term.blocks@[i]).tid, f.tid)),
+    decreases n
+{
+    if n > 0 {
+        lemma_cfg_sub_blocks_keys(st, f, n - 1);
+        let s1 = cfg_sub_blocks_n(st, f, n - 1);
+        let s2 = cfg_sub_blocks_n(st, f, n);
+        assert(s2 == cfg_add_block(s1, &f.term.blocks@[n - 1], f));
+        assert forall |k: (Tid, Tid)| st.jt.contains_key(k) implies #[trigger] s2.jt.contains_key(k) by {
+            assert(s1.jt.contains_key(k));
+        }
+        assert forall |i: int| 0 <= i < n implies s2.jt.contains_key(((#[trigger] f.term.blocks@[i]).tid, f.tid)) by {
+            if i < n - 1 { assert(s1.jt.contains_key((f.term.blocks@[i].tid, f.tid))); }
+        }
+    }
+}
+
+/// after add_program_blocks the key of every (block, function it is listed in) is registered
+pub proof fn lemma_cfg_prog_blocks_keys<'a>(st: CfgSt<'a>, subs: Map<Tid, Term<Sub>>, ks: Seq<Tid>, n: int)
+    requires 0 <= n <= ks.len(),
+    ensures
+        forall |k: (Tid, Tid)| st.jt.contains_key(k) ==> #[trigger] cfg_prog_blocks_n(st, subs, ks, n).jt.contains_key(k),
+        forall |j: int, i: int| 0 <= j < n && 0 <= i < subs[ks[j]].term.blocks@.len() ==>
+            cfg_prog_blocks_n(st, subs, ks, n).jt.contains_key(((#[trigger] subs[ks[j]].term.blocks@[i]).tid, subs[ks[j]].tid)),
+    decreases n
+{
+    if n > 0 {
+        lemma_cfg_prog_blocks_keys(st, subs, ks, n - 1);
+        let s1 = cfg_prog_blocks_n(st, subs, ks, n - 1);
+        let f = &subs[ks[n - 1]];
+        lemma_cfg_sub_blocks_keys(s1, f, f.term.blocks@.len() as int);
+    }
+}
+
+/// a registered key of a program block in a program function carries exactly that block and function (tids identify them)
+pub proof fn lemma_cfg_registered<'a>(st: CfgSt<'a>, subs: Map<Tid, Term<Sub>>, b: Term<Blk>, f: Term<Sub>)
+    requires
+        cfg_inv(st, subs), cfg_sub_tids_unique(subs), cfg_blk_tids_unique(subs),
+        cfg_prog_block(subs, b), cfg_prog_sub(subs, f), st.jt.contains_key((b.tid, f.tid)),
+    ensures cfg_registered(st, b, f),
+{
+    let v = st.jt[(b.tid, f.tid)];
+    assert(cfg_pair_ok(st.nodes, (b.tid, f.tid), v));
+    assert(cfg_node_ok(subs, st.nodes[v.0.i as int]));
+    let f2 = *cfg_sub(st.nodes[v.0.i as int]);
+    let k1 = choose |k: Tid| #[trigger] subs.contains_key(k) && subs[k] == f;
+    let k2 = choose |k: Tid| #[trigger] subs.contains_key(k) && subs[k] == f2;
+    assert(subs[k1] == subs[k2]);
+}
+
+/// after add_program_blocks (in a well-formed program) the first block of every function is registered
+pub proof fn lemma_cfg_firsts_registered<'a>(st0: CfgSt<'a>, st1: CfgSt<'a>, subs: Map<Tid, Term<Sub>>)
+    requires
+        cfg_prog_blocks_post(st0, st1, subs), cfg_inv(st1, subs), cfg_sub_tids_unique(subs), cfg_blk_tids_unique(subs),
+    ensures cfg_firsts_registered(st1, subs),
+{
+    let ks = choose |ks: Seq<Tid>| #[trigger] cfg_key_order(ks, subs) && st1 == cfg_prog_blocks_n(st0, subs, ks, ks.len() as int);
+    lemma_cfg_prog_blocks_keys(st0, subs, ks, ks.len() as int);
+    assert forall |k: Tid| #[trigger] subs.contains_key(k) && subs[k].term.blocks@.len() > 0 implies cfg_registered(st1, subs[k].term.blocks@[0], subs[k]) by {
+        let j = choose |j: int| 0 <= j < ks.len() && #[trigger] ks[j] == k;
+        let b = subs[ks[j]].term.blocks@[0];
+        assert(st1.jt.contains_key((b.tid, subs[ks[j]].tid)));
+        assert(cfg_block_at(subs, k, 0, b));
+        lemma_cfg_registered(st1, subs, b, subs[k]);
+    }
+}
+
+/// get_entry_nodes_of_subs, one more node visited
+pub proof fn lemma_cfg_entry_step<'a>(nodes: Seq<Node<'a>>, r: Map<Tid, NodeIndex>, m: int, node: NodeIndex)
+    requires cfg_entry_map_n(nodes, r, m), 0 <= m < nodes.len(), node.i == m,
+    ensures
+        cfg_entry_node(nodes, m, cfg_sub(nodes[m]).tid) ==> cfg_entry_map_n(nodes, r.insert(cfg_sub(nodes[m]).tid, node), m + 1),
+        !cfg_entry_node(nodes, m, cfg_sub(nodes[m]).tid) ==> cfg_entry_map_n(nodes, r, m + 1),
+{
+    let t0 = cfg_sub(nodes[m]).tid;
+    if cfg_entry_node(nodes, m, t0) {
+        let r2 = r.insert(t0, node);
+        assert forall |t: Tid| #[trigger] r2.contains_key(t) <==> exists |n: int| n < m + 1 && #[trigger] cfg_entry_node(nodes, n, t) by {
+            if r2.contains_key(t) {
+                if t == t0 { assert(cfg_entry_node(nodes, m, t)); } else {
+                    let n = choose |n: int| n < m && #[trigger] cfg_entry_node(nodes, n, t);
+                    assert(n < m + 1);
+                }
+            }
+            if exists |n: int| n < m + 1 && #[trigger] cfg_entry_node(nodes, n, t) {
+                let n = choose |n: int| n < m + 1 && #[trigger] cfg_entry_node(nodes, n, t);
+                if n < m { assert(r.contains_key(t)); }
+            }
+        }
+        assert forall |t: Tid| #[trigger] r2.contains_key(t) implies r2[t].i < m + 1 && cfg_entry_node(nodes, r2[t].i as int, t)
+                && forall |n: int| r2[t].i < n < m + 1 ==> !#[trigger] cfg_entry_node(nodes, n, t) by {
+            if t != t0 { assert(r.contains_key(t)); }
+        }
+    } else {
+        assert forall |t: Tid| #[trigger] r.contains_key(t) <==> exists |n: int| n < m + 1 && #[trigger] cfg_entry_node(nodes, n, t) by {
+            if r.contains_key(t) {
+                let n = choose |n: int| n < m && #[trigger] cfg_entry_node(nodes, n, t);
+                assert(n < m + 1);
+            }
+            if exists |n: int| n < m + 1 && #[trigger] cfg_entry_node(nodes, n, t) {
+                let n = choose |n: int| n < m + 1 && #[trigger] cfg_entry_node(nodes, n, t);
+                assert(n < m);
+            }
+        }
+    }
 }
